@@ -717,3 +717,765 @@ Proof.
   destruct W as [[A B] _]. split; [exact A|]. split; [exact B|].
   apply (lk_own st (reachable_LK st R) t (MPq p)). rewrite Hc, nhold_cons. cbn [holdb]. rewrite mtx_eqb_refl. lia.
 Qed.
+
+(** ** Part 2: replies *)
+Definition pclaim (st : wstate) (p : Z) : Z * hkind := (wbit (pw (pps st p)), HPipe p).
+Definition finok (j : instr) : Prop :=
+  match j with ILock _ (LPqPanic _) | ILock _ (LPush _ _ _) => True | _ => False end.
+
+Record PqInv (st : wstate) : Prop := {
+  (* a worker that may still run commands has not dropped its Waker yet *)
+  pk : forall t, (t < nthr st)%nat -> 0 <= tpipe (thr st t) ->
+       (tcur (thr st t) <> None \/ tscript (thr st t) <> []) ->
+       pexists (pps st (tpipe (thr st t))) = true /\ In (pclaim st (tpipe (thr st t))) (pushes (tfinal (thr st t)));
+  pc : forall t m0 p m, In (ILock m0 (LPqLSend p m)) (tcont (thr st t)) ->
+       p = tpipe (thr st t) /\ 0 <= p /\ tcur (thr st t) <> None;
+  pc2 : forall t bm a b p, In (IClimb (KLeaf bm a b (Some (HPipe p)))) (tcont (thr st t)) ->
+       p = tpipe (thr st t) /\ 0 <= p /\ tcur (thr st t) <> None /\ 4096 * bm + 64 * a + b = wbit (pw (pps st p));
+  pq : forall p, precvq (pps st p) <> [] ->
+       owed st (HPipe p) \/ exists t bm a b, In (IClimb (KLeaf bm a b (Some (HPipe p)))) (tcont (thr st t));
+  pf : forall t j, In j (tfinal (thr st t)) -> finok j }.
+
+Definition freshP (st : wstate) (t : tid) (j : instr) : Prop :=
+  match j with
+  | ILock _ (LPqLSend p _) => p = tpipe (thr st t) /\ 0 <= p /\ tcur (thr st t) <> None
+  | IClimb (KLeaf bm a b (Some (HPipe p))) =>
+      p = tpipe (thr st t) /\ 0 <= p /\ tcur (thr st t) <> None /\ 4096 * bm + 64 * a + b = wbit (pw (pps st p))
+  | _ => True
+  end.
+
+Section PqStep.
+  Variables (st st' : wstate) (t : tid) (pre r new : list instr) (chg : Z -> bool).
+  Hypothesis Q : PqInv st.
+  Hypothesis Hc : tcont (thr st t) = pre ++ r.
+  Hypothesis Hc' : tcont (thr st' t) = new ++ r.
+  Hypothesis Hn : nthr st' = nthr st.
+  Hypothesis Ho : forall u, u <> t -> tcont (thr st' u) = tcont (thr st u).
+  Hypothesis Hf : forall u, tfinal (thr st' u) = tfinal (thr st u) /\ tcur (thr st' u) = tcur (thr st u) /\
+                            tscript (thr st' u) = tscript (thr st u) /\ tpipe (thr st' u) = tpipe (thr st u).
+  Hypothesis Hpp : forall p, pexists (pps st' p) = pexists (pps st p) /\ pw (pps st' p) = pw (pps st p).
+  Hypothesis Hpq : forall p, chg p = false -> precvq (pps st' p) = precvq (pps st p).
+  Hypothesis How : forall p, chg p = false -> owed st (HPipe p) -> owed st' (HPipe p).
+  Hypothesis Hnew : forall j, In j new -> freshP st t j.
+  Hypothesis Hlh : forall bm a b p, In (IClimb (KLeaf bm a b (Some (HPipe p)))) pre -> chg p = false -> owed st' (HPipe p).
+  Hypothesis Q0 : forall p, chg p = true -> precvq (pps st' p) <> [] ->
+     owed st' (HPipe p) \/ exists u bm a b, In (IClimb (KLeaf bm a b (Some (HPipe p)))) (tcont (thr st' u)).
+
+  Lemma pq_step : PqInv st'.
+  Proof.
+    constructor.
+    - intros u. destruct (Hf u) as [A [B [C D]]]. rewrite Hn, A, B, C, D. unfold pclaim.
+      destruct (Hpp (tpipe (thr st u))) as [X Y]. rewrite X, Y. apply (pk st Q u).
+    - intros u m0 p m Hin. destruct (Hf u) as [_ [B [_ D]]]. rewrite B, D.
+      destruct (Nat.eq_dec u t) as [->|Hu].
+      + rewrite Hc' in Hin. apply in_app_or in Hin. destruct Hin as [Hin|Hin].
+        * exact (Hnew _ Hin).
+        * apply (pc st Q t m0 p m). rewrite Hc. apply in_or_app. auto.
+      + rewrite (Ho u Hu) in Hin. apply (pc st Q u m0 p m Hin).
+    - intros u bm a b p Hin. destruct (Hf u) as [_ [B [_ D]]]. rewrite B, D. destruct (Hpp p) as [_ Y]. rewrite Y.
+      destruct (Nat.eq_dec u t) as [->|Hu].
+      + rewrite Hc' in Hin. apply in_app_or in Hin. destruct Hin as [Hin|Hin].
+        * exact (Hnew _ Hin).
+        * apply (pc2 st Q t bm a b p). rewrite Hc. apply in_or_app. auto.
+      + rewrite (Ho u Hu) in Hin. apply (pc2 st Q u bm a b p Hin).
+    - intros p Hq. destruct (chg p) eqn:Eg; [apply Q0; auto|]. rewrite (Hpq p Eg) in Hq.
+      destruct (pq st Q p Hq) as [O|[u [bm [a [b Hin]]]]]; [left; apply How; auto|].
+      destruct (Nat.eq_dec u t) as [->|Hu].
+      + rewrite Hc in Hin. apply in_app_or in Hin. destruct Hin as [Hin|Hin].
+        * left. eapply Hlh; eauto.
+        * right. exists t, bm, a, b. rewrite Hc'. apply in_or_app. auto.
+      + right. exists u, bm, a, b. rewrite (Ho u Hu). exact Hin.
+    - intros u j. destruct (Hf u) as [A _]. rewrite A. apply (pf st Q u).
+  Qed.
+End PqStep.
+
+Lemma pq_same : forall st st',
+  nthr st' = nthr st ->
+  (forall u, tcont (thr st' u) = tcont (thr st u) /\ tfinal (thr st' u) = tfinal (thr st u) /\ tcur (thr st' u) = tcur (thr st u) /\
+             tscript (thr st' u) = tscript (thr st u) /\ tpipe (thr st' u) = tpipe (thr st u)) ->
+  pps st' = pps st -> (forall h, owed st h -> owed st' h) ->
+  PqInv st -> PqInv st'.
+Proof.
+  intros st st' Hn Hf Hp Ow Q. constructor.
+  - intros u. destruct (Hf u) as [_ [A [B [C D]]]]. rewrite Hn, A, B, C, D. unfold pclaim. rewrite Hp. apply (pk st Q u).
+  - intros u m0 p m. destruct (Hf u) as [E [_ [B [_ D]]]]. rewrite E, B, D. apply (pc st Q u).
+  - intros u bm a b p. destruct (Hf u) as [E [_ [B [_ D]]]]. rewrite E, B, D, Hp. apply (pc2 st Q u).
+  - intros p. rewrite Hp. intro Hq. destruct (pq st Q p Hq) as [O|[u [bm [a [b Hin]]]]]; [left; auto|].
+    right. exists u, bm, a, b. destruct (Hf u) as [E _]. rewrite E. exact Hin.
+  - intros u j. destruct (Hf u) as [_ [A _]]. rewrite A. apply (pf st Q u).
+Qed.
+
+(** a thread with an empty continuation changes its command bookkeeping and installs [new] *)
+Lemma pq_idle : forall st st' t new,
+  PqInv st -> tcont (thr st t) = [] -> tcont (thr st' t) = new ->
+  nthr st' = nthr st -> (forall u, u <> t -> thr st' u = thr st u) -> tpipe (thr st' t) = tpipe (thr st t) ->
+  pps st' = pps st -> gnew st' = gnew st -> gcol st' = gcol st ->
+  ((t < nthr st)%nat -> 0 <= tpipe (thr st t) -> (tcur (thr st' t) <> None \/ tscript (thr st' t) <> []) ->
+   pexists (pps st (tpipe (thr st t))) = true /\ In (pclaim st (tpipe (thr st t))) (pushes (tfinal (thr st' t)))) ->
+  (forall j, In j new -> freshP st' t j) ->
+  (forall j, In j (tfinal (thr st' t)) -> finok j) ->
+  PqInv st'.
+Proof.
+  intros st st' t new Q Hc Hc' Hn Ho Htp Hp Hgn Hgc Hk Hnew Hfin.
+  assert (Ow : forall h, owed st' h <-> owed st h) by (intro h; unfold owed; rewrite Hgn, Hgc; tauto).
+  constructor.
+  - intros u. destruct (Nat.eq_dec u t) as [->|Hu].
+    + rewrite Hn, Htp. unfold pclaim. rewrite Hp. apply Hk.
+    + rewrite Hn, (Ho u Hu). unfold pclaim. rewrite Hp. apply (pk st Q u).
+  - intros u m0 p m Hin. destruct (Nat.eq_dec u t) as [->|Hu].
+    + rewrite Hc' in Hin. exact (Hnew _ Hin).
+    + rewrite (Ho u Hu) in *. apply (pc st Q u m0 p m Hin).
+  - intros u bm a b p Hin. destruct (Nat.eq_dec u t) as [->|Hu].
+    + rewrite Hc' in Hin. exact (Hnew _ Hin).
+    + rewrite (Ho u Hu) in *. rewrite Hp. apply (pc2 st Q u bm a b p Hin).
+  - intros p. rewrite Hp, Ow. intro Hq. destruct (pq st Q p Hq) as [O|[u [bm [a [b Hin]]]]]; [left; auto|].
+    right. exists u, bm, a, b. destruct (Nat.eq_dec u t) as [->|Hu]; [rewrite Hc in Hin; destruct Hin|rewrite (Ho u Hu); exact Hin].
+  - intros u j. destruct (Nat.eq_dec u t) as [->|Hu]; [apply Hfin|rewrite (Ho u Hu); apply (pf st Q u)].
+Qed.
+
+Lemma leaf_join : forall st t bm a b who r x,
+  CInv (core st) -> tcont (thr st t) = IClimb (KLeaf bm a b who) :: r -> 4096 * bm + 64 * a + b = x ->
+  bitmap_join a b (bmbase st bm) = Some x.
+Proof.
+  intros st t bm a b who r x I Hc E. pose proof (i_slab _ I) as SI.
+  pose proof (i_wf _ I t (IClimb (KLeaf bm a b who))) as W. cbn [core c_cont] in W. rewrite Hc in W.
+  destruct (W (or_introl eq_refl)) as [Hreg [Ha Hb]].
+  pose proof (s_base _ SI bm Hreg) as Hbase. cbn [core c_base] in Hbase.
+  destruct (creg_bound _ bm SI Hreg) as [B0 B1].
+  rewrite Hbase, bitmap_join_spec by lia. f_equal. lia.
+Qed.
+
+Lemma pristine_lt : forall st t, pristine st -> tcont (thr st t) <> [] -> (t < nthr st)%nat.
+Proof.
+  intros st t [_ P] Hne. destruct (le_lt_dec (nthr st) t) as [Hge|Hlt]; [|exact Hlt].
+  destruct (P t Hge) as [E _]. congruence.
+Qed.
+
+(** the slot of a pipe whose worker is inside a command still holds the pipe's handler *)
+Lemma pipe_slot : forall st t p,
+  pristine st -> SlInv st -> PqInv st -> tcont (thr st t) <> [] ->
+  p = tpipe (thr st t) -> 0 <= p -> tcur (thr st t) <> None ->
+  slab_get (sl st) (wbit (pw (pps st p))) = Some (HPipe p) /\ pexists (pps st p) = true.
+Proof.
+  intros st t p P S Q Hne -> H0 Hcur.
+  destruct (pk st Q t (pristine_lt st t P Hne) H0 (or_introl Hcur)) as [A B]. split; [|exact A].
+  apply (sl_claim st S). right; right. exists t. unfold tpushes. apply in_or_app. right. exact B.
+Qed.
+
+Lemma climb_at_who : forall st bit bm w i, climb_at st bit bm w = Some i -> exists a b, i = IClimb (KLeaf bm a b w).
+Proof.
+  intros st bit bm w i H. unfold climb_at in H.
+  destruct (bitmap_split bit (bmbase st bm)) as [[a b]|]; [|discriminate].
+  destruct ((a <? USIZE_BITS) && registered st bm); inversion H; eauto.
+Qed.
+
+Lemma HPipe_neq : forall p0 p, (p0 =? p) = false -> HPipe p0 <> HPipe p.
+Proof. intros p0 p E F. inversion F; subst. rewrite Z.eqb_refl in E. discriminate. Qed.
+
+Ltac pq_hf := let u := fresh "u" in intro u; repeat split; thr_simpl.
+Ltac pq_upd := cbn; unfold updZ;
+  repeat match goal with |- context [?a =? ?b] => destruct (Z.eqb_spec a b); subst end; cbn.
+Ltac pq_pps := intros ?; pq_upd; split; reflexivity.
+Ltac pq_pq := intros ? _; pq_upd; reflexivity.
+Ltac pq_owed := let Hw := fresh "Hw" in intros ? _ Hw; revert Hw; unfold owed; cbn; rewrite ?updH_other by discriminate; auto.
+Ltac pq_new := let j := fresh "j" in let Hj := fresh "Hj" in intros j Hj; in_cases Hj; cbn; auto.
+Ltac pq_nolh := let Hj := fresh "Hj" in
+  intros ? ? ? ? Hj;
+  first [ cbn in Hj; repeat (destruct Hj as [Hj|Hj]); try discriminate Hj; try contradiction; fail
+        | exfalso; match goal with Hn : forall bm a b p, In (IClimb (KLeaf bm a b (Some (HPipe p)))) _ -> False |- _ => exact (Hn _ _ _ _ Hj) end ].
+Ltac pqn st t pre r new :=
+  apply (pq_step st _ t pre r new (fun _ => false));
+  [ assumption | eassumption | thr_simpl | reflexivity | thr_simpl | pq_hf | pq_pps | pq_pq | pq_owed | pq_new | pq_nolh
+  | intros; discriminate ].
+
+Lemma exec_lact_Pq : forall st t hd a r st' ev,
+  CInv (core st) -> WInv st -> pristine st -> PqInv st ->
+  tcont (thr st t) = [hd] ++ r ->
+  (forall bm a b p, hd <> IClimb (KLeaf bm a b (Some (HPipe p)))) ->
+  (forall p m, a = LPqLSend p m -> exists m0, hd = ILock m0 a) ->
+  exec_lact st t a r = (st', ev) -> PqInv st'.
+Proof.
+  intros st t hd a r st' ev I W P Q Hc Hhd Hls H.
+  assert (Hn : forall bm a b p, In (IClimb (KLeaf bm a b (Some (HPipe p)))) [hd] -> False)
+    by (intros bm a0 b p [E|[]]; eapply Hhd; eauto).
+  destruct a; cbn [exec_lact] in H.
+  - destruct (climb_reserved st bm) as [i|] eqn:Ecl; inversion H; subst; clear H.
+    + apply climb_at_who in Ecl. destruct Ecl as [a [b ->]]. pqn st t [hd] r [IClimb (KLeaf bm a b None); IUnlock MDL UNone].
+    + pqn st t [hd] r [IUnlock MDL UNone].
+  - unfold ghost_handler in H. inversion H; subst; clear H. pqn st t [hd] r [IUnlock MDL (UDels (dl st))].
+  - inversion H; subst; clear H. pqn st t [hd] r [IUnlock (MCh c) (UChReg c)].
+  - destr_all H; repeat match goal with E : climb_start _ _ _ = Some _ |- _ => apply climb_at_who in E; destruct E as [? [? ->]] end;
+      inversion H; subst; clear H.
+    + pqn st t [hd] r [IClimb (KLeaf (wbm (cw (chs st c))) x x0 (Some (HChan c))); IUnlock (MCh c) (UChPush c m)].
+    + pqn st t [hd] r [IUnlock (MCh c) (UChPush c m)].
+    + pqn st t [hd] r [IUnlock (MCh c) (UChPush c m)].
+    + pqn st t [hd] r [IUnlock (MCh c) (URet (RBool false))].
+  - inversion H; subst; clear H. pqn st t [hd] r [IUnlock (MCh c) (URet (RBool (negb (copen (chs st c)))))].
+  - destruct (copen (chs st c)); inversion H; subst; clear H.
+    + pqn st t [hd] r [ILock MDL (LPush (wbit (cw (chs st c))) (wbm (cw (chs st c))) (HChan c)); IUnlock (MCh c) (UChClear c)].
+    + pqn st t [hd] r [IUnlock (MCh c) (UChClear c)].
+  - unfold ghost_handler in H. inversion H; subst; clear H.
+    destruct del; pqn st t [hd] r [IUnlock (MCh c) (UFwd c (if copen (chs st c) then cq (chs st c) else []))].
+  - (* LPqHandler: takes the whole reply queue *)
+    unfold ghost_handler in H. inversion H; subst; clear H.
+    match goal with |- PqInv ?S' => set (st' := S') end.
+    apply (pq_step st st' t [hd] r [IUnlock (MPq p) (UPqFwd p (precvq (pps st p)) (if del then Some (ppanic (pps st p)) else None))]
+             (fun p0 => p0 =? p) Q Hc).
+    + unfold st'. destruct del; thr_simpl.
+    + unfold st'. destruct del; reflexivity.
+    + unfold st'. destruct del; thr_simpl.
+    + unfold st'. destruct del; pq_hf.
+    + unfold st'. destruct del; pq_pps.
+    + intros p0 E. unfold st'. destruct del; cbn; unfold updZ; rewrite E; reflexivity.
+    + intros p0 E Hw. pose proof (HPipe_neq _ _ E) as N. revert Hw. unfold st', owed. destruct del; cbn; rewrite ?updH_other by exact N; auto.
+    + pq_new.
+    + pq_nolh.
+    + intros p0 E Hq. apply Z.eqb_eq in E. subst p0. exfalso. apply Hq. unfold st'. destruct del; cbn; unfold updZ; rewrite Z.eqb_refl; reflexivity.
+  - destr_all H; inversion H; subst; clear H.
+    + pqn st t [hd] r [IUnlock (MPq p) UNone; INotify p].
+    + pqn st t [hd] r [IUnlock (MPq p) UNone].
+  - inversion H; subst; clear H. pqn st t [hd] r [IUnlock (MPq p) UNone; INotify p].
+  - destr_all H; inversion H; subst; clear H.
+    + pqn st t [hd] r [IUnlock (MPq p) (URet RNoneV)].
+    + pqn st t [hd] r [ICvWait p; ICvReacq p].
+    + pqn st t [hd] r [IUnlock (MPq p) (URet (RVal z))].
+  - (* LPqLSend *)
+    destruct (Hls p m eq_refl) as [m0 Ehd]. subst hd.
+    destruct (pc st Q t m0 p m) as [Ep [H0 Hcur]]; [rewrite Hc; left; reflexivity|].
+    assert (Hne : tcont (thr st t) <> []) by (rewrite Hc; discriminate).
+    pose proof (pristine_lt st t P Hne) as Ht.
+    assert (Hex : pexists (pps st p) = true).
+    { rewrite Ep. rewrite Ep in H0. exact (proj1 (pk st Q t Ht H0 (or_introl Hcur))). }
+    destruct (precvq (pps st p)) eqn:Eq.
+    + destruct (climb_start_ok st (pw (pps st p)) (Some (HPipe p)) I (ww_pp st W p Hex)) as [a [b [E [Ha [Hb Hx]]]]].
+      rewrite E in H. cbn [olist app] in H. inversion H; subst st' ev; clear H.
+      match goal with |- PqInv ?S' => set (st' := S') end.
+      apply (pq_step st st' t [ILock m0 (LPqLSend p m)] r
+               [IUnlock (MPq p) (URet (RBool (negb (pcancel (pps st p))))); IClimb (KLeaf (wbm (pw (pps st p))) a b (Some (HPipe p)))]
+               (fun p0 => p0 =? p) Q Hc).
+      * unfold st'. thr_simpl.
+      * reflexivity.
+      * unfold st'. thr_simpl.
+      * unfold st'. pq_hf.
+      * unfold st'. pq_pps.
+      * intros p0 E0. unfold st'. cbn. unfold updZ. rewrite E0. reflexivity.
+      * intros p0 _ Hw. exact Hw.
+      * intros j Hj. in_cases Hj; cbn; auto.
+      * pq_nolh.
+      * intros p0 E0 _. apply Z.eqb_eq in E0. subst p0. right.
+        exists t, (wbm (pw (pps st p))), a, b. unfold st'. cbn. unfold updN, th. rewrite Nat.eqb_refl. cbn. right; left. reflexivity.
+    + inversion H; subst st' ev; clear H. cbn [app].
+      match goal with |- PqInv ?S' => set (st' := S') end.
+      assert (Hc' : tcont (thr st' t) = [IUnlock (MPq p) (URet (RBool (negb (pcancel (pps st p)))))] ++ r) by (unfold st'; thr_simpl).
+      assert (Ho : forall u, u <> t -> tcont (thr st' u) = tcont (thr st u)) by (unfold st'; thr_simpl).
+      apply (pq_step st st' t [ILock m0 (LPqLSend p m)] r _ (fun p0 => p0 =? p) Q Hc Hc' eq_refl Ho).
+      * unfold st'. pq_hf.
+      * unfold st'. pq_pps.
+      * intros p0 E0. unfold st'. cbn. unfold updZ. rewrite E0. reflexivity.
+      * intros p0 _ Hw. exact Hw.
+      * pq_new.
+      * pq_nolh.
+      * intros p0 E0 _. apply Z.eqb_eq in E0. subst p0.
+        destruct (pq st Q p) as [O|[u [bm [a [b Hin]]]]]; [rewrite Eq; discriminate|left; exact O|]. right.
+        exists u, bm, a, b. destruct (Nat.eq_dec u t) as [->|Hu]; [|rewrite (Ho u Hu); exact Hin].
+        rewrite Hc' . rewrite Hc in Hin. destruct Hin as [Hin|Hin]; [discriminate Hin|]. right. exact Hin.
+  - inversion H; subst; clear H. pqn st t [hd] r [IUnlock (MPq p) (URet (RBool (pcancel (pps st p))))].
+  - inversion H; subst; clear H. pqn st t [hd] r [IUnlock (MPq p) UNone].
+Qed.
+
+Lemma exec_uact_Pq : forall st t m a r st' ev,
+  PqInv st -> tcont (thr st t) = [IUnlock m a] ++ r -> exec_uact st t a r = (st', ev) -> PqInv st'.
+Proof.
+  intros st t m a r st' ev Q Hc H.
+  destruct a; cbn [exec_uact] in H; inversion H; subst; clear H.
+  - pqn st t [IUnlock m UNone] r (@nil instr).
+  - pqn st t [IUnlock m (URet v)] r (@nil instr).
+  - pqn st t [IUnlock m (UDels l)] r [IDels l].
+  - pqn st t [IUnlock m (UChReg c)] r (@nil instr).
+  - pqn st t [IUnlock m (UChPush c m0)] r (@nil instr).
+  - pqn st t [IUnlock m (UChClear c)] r (@nil instr).
+  - pqn st t [IUnlock m (UFwd c msgs)] r (@nil instr).
+  - pqn st t [IUnlock m (UPqFwd p msgs term)] r (@nil instr).
+Qed.
+
+Lemma exec_climb_Pq : forall st t k r st' ev,
+  CInv (core st) -> pristine st -> SlInv st -> PqInv st -> tcont (thr st t) = [IClimb k] ++ r ->
+  exec_climb st t k r = (st', ev) -> PqInv st'.
+Proof.
+  intros st t k r st' ev I P S Q Hc H.
+  destruct k; cbn [exec_climb] in H; inversion H; subst; clear H.
+  - match goal with |- PqInv ?S' => set (st' := S') end.
+    assert (Gn : forall h, gnew st h <> None -> gnew st' h <> None).
+    { intros h Hn. unfold st'. destruct (bitmap_join a b (bmbase st bm)); [destruct (slab_get (sl st) z)|]; cbn; auto.
+      unfold updH. destruct (hkind_eqb h h0); auto. unfold ovjoin. destruct (gnew st h0); discriminate. }
+    assert (Gc : gcol st' = gcol st).
+    { unfold st'. destruct (bitmap_join a b (bmbase st bm)); [destruct (slab_get (sl st) z)|]; reflexivity. }
+    assert (Hpp : pps st' = pps st).
+    { unfold st'. destruct (bitmap_join a b (bmbase st bm)); [destruct (slab_get (sl st) z)|]; reflexivity. }
+    assert (Hn : nthr st' = nthr st).
+    { unfold st'. destruct (bitmap_join a b (bmbase st bm)); [destruct (slab_get (sl st) z)|]; reflexivity. }
+    assert (Ho : forall u, u <> t -> tcont (thr st' u) = tcont (thr st u)).
+    { unfold st'. destruct (bitmap_join a b (bmbase st bm)); [destruct (slab_get (sl st) z)|]; thr_simpl. }
+    assert (Hf : forall u, tfinal (thr st' u) = tfinal (thr st u) /\ tcur (thr st' u) = tcur (thr st u) /\
+                           tscript (thr st' u) = tscript (thr st u) /\ tpipe (thr st' u) = tpipe (thr st u)).
+    { unfold st'. destruct (bitmap_join a b (bmbase st bm)); [destruct (slab_get (sl st) z)|]; pq_hf. }
+    assert (Hc' : tcont (thr st' t) = (if leaf st bm a =? 0 then [IClimb (KSum bm a)] else []) ++ r).
+    { unfold st'. destruct (bitmap_join a b (bmbase st bm)); [destruct (slab_get (sl st) z)|]; destruct (leaf st bm a =? 0); thr_simpl. }
+    apply (pq_step st st' t [IClimb (KLeaf bm a b who)] r _ (fun _ => false) Q Hc Hc' Hn Ho Hf).
+    + intro p. rewrite Hpp. split; reflexivity.
+    + intros p _. rewrite Hpp. reflexivity.
+    + intros p _ [Hw|Hw]; [left; apply Gn; exact Hw|right; rewrite Gc; exact Hw].
+    + intros j Hj. destruct (leaf st bm a =? 0); in_cases Hj. exact Logic.I.
+    + intros bm' a' b' p [E|[]] _. inversion E; subst bm' a' b' who.
+      destruct (pc2 st Q t bm a b p) as [Ep [H0 [Hcur Hx]]]; [rewrite Hc; left; reflexivity|].
+      assert (Hne : tcont (thr st t) <> []) by (rewrite Hc; discriminate).
+      destruct (pipe_slot st t p P S Q Hne Ep H0 Hcur) as [Hs _].
+      pose proof (leaf_join st t bm a b (Some (HPipe p)) r _ I Hc Hx) as Ej.
+      left. unfold st'. rewrite Ej, Hs. cbn. rewrite updH_same. unfold ovjoin. destruct (gnew st (HPipe p)); discriminate.
+    + intros; discriminate.
+  - destruct (summ st bm =? 0); [pqn st t [IClimb (KSum bm a)] r [IClimb (KTop bm)]|pqn st t [IClimb (KSum bm a)] r (@nil instr)].
+  - destruct (top st =? 0); [pqn st t [IClimb (KTop bm)] r [IClimb KCb]|pqn st t [IClimb (KTop bm)] r (@nil instr)].
+  - pqn st t [IClimb KCb] r (@nil instr).
+Qed.
+
+Lemma exec_instr_Pq : forall st t i r st' ev,
+  CInv (core st) -> WInv st -> pristine st -> SlInv st -> ChInv st -> PqInv st ->
+  tcont (thr st t) = i :: r -> exec_instr st t i r = (st', ev) -> PqInv st'.
+Proof.
+  intros st t i r st' ev I W P S C Q Hc H.
+  assert (Hc0 : tcont (thr st t) = [i] ++ r) by exact Hc.
+  destruct i; cbn [exec_instr] in H.
+  - eapply exec_climb_Pq; eauto.
+  - inversion H; subst; clear H. pqn st t [ITopSwap] r [IBms (flat_map (bms_of_slot st) (bits_of (top st)))].
+  - destruct bms; inversion H; subst; clear H; [exact Q|].
+    pqn st t [IBms (z :: bms)] r [ILeaves z (bits_of (summ st z)); IBms bms].
+  - destruct ls; [inversion H; subst; exact Q|].
+    destruct (collect (bmbase st bm) z (leaf st bm z)) as [bits ok].
+    match type of H with context [ghost_collect ?S0 bits] =>
+      destruct (ghost_collect_sl bits S0) as [_ [_ [_ [_ [A5 [_ [A7 A8]]]]]]];
+      pose proof (ghost_collect_owed bits S0) as A4; remember (ghost_collect S0 bits) as s3 eqn:Es3 end.
+    cbn zeta in *. inversion H; subst st' ev; clear H.
+    match goal with |- PqInv ?S' => set (st' := S') end.
+    assert (C1 : tcont (thr st' t) = [ILeaves bm ls] ++ r).
+    { unfold st'. cbn -[Nat.eqb]. unfold updN, th. rewrite A8. cbn -[Nat.eqb]. unfold updN, th. rewrite !Nat.eqb_refl. reflexivity. }
+    assert (C3 : forall u, u <> t -> tcont (thr st' u) = tcont (thr st u)).
+    { intros u Hu. unfold st'. cbn -[Nat.eqb]. unfold updN, th. rewrite A8. cbn -[Nat.eqb]. unfold updN, th.
+      destruct (Nat.eqb_spec u t); [congruence|]. reflexivity. }
+    assert (Hf : forall u, tfinal (thr st' u) = tfinal (thr st u) /\ tcur (thr st' u) = tcur (thr st u) /\
+                           tscript (thr st' u) = tscript (thr st u) /\ tpipe (thr st' u) = tpipe (thr st u)).
+    { intro u. unfold st'. cbn -[Nat.eqb]. unfold updN, th. rewrite A8. cbn -[Nat.eqb]. unfold updN, th.
+      destruct (Nat.eqb_spec u t); subst; rewrite ?Nat.eqb_refl; cbn; repeat split; reflexivity. }
+    assert (Hn : nthr st' = nthr st) by (unfold st'; cbn; rewrite A5; reflexivity).
+    apply (pq_step st st' t [ILeaves bm (z :: ls)] r [ILeaves bm ls] (fun _ => false) Q Hc0 C1 Hn C3 Hf).
+    + intro p. unfold st'. cbn. rewrite A7. split; reflexivity.
+    + intros p _. unfold st'. cbn. rewrite A7. reflexivity.
+    + intros p _ Hw. unfold st', owed. cbn. apply A4. unfold owed. cbn. exact Hw.
+    + pq_new.
+    + pq_nolh.
+    + intros; discriminate.
+  - inversion H; subst; exact Q.
+  - inversion H; subst; exact Q.
+  - inversion H; subst; exact Q.
+  - (* lock *)
+    match type of H with context [exec_lact ?S0 t ?aa ?rr] => destruct (exec_lact S0 t aa rr) as [s2 e2] eqn:E; set (s1 := S0) in * end.
+    inversion H; subst; clear H.
+    assert (I1 : CInv (core s1)) by (eapply CInv_ceq; [|exact I]; unfold s1; same_core).
+    assert (Ww1 : WInv s1) by (unfold s1; ww_refl W).
+    assert (P1 : pristine s1) by (unfold s1; destruct P as [P0 P]; split; [exact P0|]; intros u Hu; cbn -[Nat.eqb]; unfold updN, th;
+                                   destruct (Nat.eqb_spec u t); subst; cbn; [|apply P; exact Hu];
+                                   destruct (P t Hu) as [X _]; rewrite Hc in X; discriminate).
+    assert (Q1 : PqInv s1).
+    { apply (pq_same st); auto; try reflexivity. intro u. unfold s1. repeat split; thr_simpl. }
+    apply (exec_lact_Pq s1 t (ILock m a) a r st' e2 I1 Ww1 P1 Q1); [| | |exact E].
+    + unfold s1. thr_simpl.
+    + intros; discriminate.
+    + intros p m0 ->. eexists; reflexivity.
+  - destruct (exec_uact st t a r) as [s1 e1] eqn:E. inversion H; subst; clear H.
+    pose proof (exec_uact_Pq st t m a r s1 e1 Q Hc0 E) as Q1.
+    apply (pq_same s1); auto; try reflexivity.
+  - inversion H; subst; clear H. pqn st t [ICvWait p] r (@nil instr).
+  - match type of H with context [exec_lact ?S0 t ?aa ?rr] => destruct (exec_lact S0 t aa rr) as [s2 e2] eqn:E; set (s1 := S0) in * end.
+    inversion H; subst; clear H.
+    assert (Q1 : PqInv s1).
+    { apply (pq_same st); auto; try reflexivity. intro u. unfold s1. repeat split; thr_simpl. }
+    assert (Hc1 : tcont (thr s1 t) = [ICvReacq p] ++ r) by (unfold s1; thr_simpl; exact Hc).
+    clear - Q1 Hc1 E. cbn [exec_lact] in E. destr_all E; inversion E; subst; clear E.
+    + pqn s1 t [ICvReacq p] r [IUnlock (MPq p) (URet RNoneV)].
+    + pqn s1 t [ICvReacq p] r [ICvWait p; ICvReacq p].
+    + pqn s1 t [ICvReacq p] r [IUnlock (MPq p) (URet (RVal z))].
+  - inversion H; subst st' ev; clear H.
+    match goal with |- PqInv (set_cont (fold_left ?f ?us st) t r) =>
+      destruct (notify_fold_spec us st) as [_ [_ [_ [_ [_ [_ [_ [A8 [A9 [A10 [_ A12]]]]]]]]]]];
+      destruct (notify_fold_frame us st) as [B1 _];
+      destruct (notify_fold_wait us st) as [_ [_ B3]];
+      assert (D : forall u, tcur (thr (fold_left f us st) u) = tcur (thr st u) /\ tscript (thr (fold_left f us st) u) = tscript (thr st u) /\
+                            tpipe (thr (fold_left f us st) u) = tpipe (thr st u));
+      [clear; generalize us; intro us0; revert st; induction us0 as [|v us0 IH]; intro st; [intro; repeat split; reflexivity|];
+       cbn [fold_left]; intro u; destruct (IH (upd_th st v (set_twaiting (th st v) false)) u) as [X [Y Z]]; rewrite X, Y, Z;
+       cbn; unfold updN, th; destruct (Nat.eqb_spec u v); subst; cbn; repeat split; reflexivity|];
+      set (s1 := fold_left f us st) in * end.
+    cbn zeta in *.
+    assert (Q1 : PqInv s1).
+    { apply (pq_same st); [exact B1| |exact B3| |exact Q].
+      - intro u. destruct (D u) as [X [Y Z]]. repeat split; auto.
+      - intro h. unfold owed. rewrite A8, A9. auto. }
+    assert (Hc1 : tcont (thr s1 t) = [INotify p] ++ r) by (rewrite A10; exact Hc).
+    pqn s1 t [INotify p] r (@nil instr).
+  - assert (Hp : exists w, h = HPlain w).
+    { apply (ch_wf st C t (IYieldH h del)). rewrite Hc. left. reflexivity. }
+    destruct Hp as [w ->].
+    unfold ghost_handler in H. inversion H; subst; clear H.
+    destruct del; [pqn st t [IYieldH (HPlain w) true] r (@nil instr)|pqn st t [IYieldH (HPlain w) false] r (@nil instr)].
+  - inversion H; subst; clear H. pqn st t [IJoin] r (@nil instr).
+  - inversion H; subst; clear H. pqn st t [IIdle] r (@nil instr).
+Qed.
+
+Lemma pq_spawn : forall s t p f,
+  PqInv s -> pristine s ->
+  (0 <= p -> pexists (pps s p) = true /\ In (pclaim s p) (pushes f)) -> (forall j, In j f -> finok j) ->
+  PqInv (spawn_thread s t p f).
+Proof.
+  intros s t p f Q [P0 P] Hk Hf.
+  set (s' := spawn_thread s t p f).
+  assert (T : forall u, u <> nthr s -> thr s' u = thr s u).
+  { intros u Hu. unfold s'. cbn. unfold updN. destruct (Nat.eqb_spec u (nthr s)); [congruence|reflexivity]. }
+  assert (Tn : thr s' (nthr s) = mkThread false [] (scripts s (nthr s)) f None RUnit [] false p (tclk (th s t))).
+  { unfold s'. cbn. unfold updN. rewrite Nat.eqb_refl. reflexivity. }
+  assert (Hp : pps s' = pps s) by reflexivity.
+  assert (Ow : forall h, owed s' h <-> owed s h) by (intro h; unfold owed; tauto).
+  constructor.
+  - intros u Hu. destruct (Nat.eq_dec u (nthr s)) as [->|Hn].
+    + rewrite Tn. cbn. intros H0 _. unfold pclaim. rewrite Hp. apply Hk. exact H0.
+    + rewrite (T u Hn). unfold pclaim. rewrite Hp. apply (pk s Q u). unfold s' in Hu. cbn in Hu. lia.
+  - intros u m0 q m. destruct (Nat.eq_dec u (nthr s)) as [->|Hn]; [rewrite Tn; intros []|rewrite (T u Hn); apply (pc s Q u)].
+  - intros u bm a b q. destruct (Nat.eq_dec u (nthr s)) as [->|Hn]; [rewrite Tn; intros []|rewrite (T u Hn), Hp; apply (pc2 s Q u)].
+  - intros q. rewrite Hp, Ow. intro Hq. destruct (pq s Q q Hq) as [O|[u [bm [a [b Hin]]]]]; [left; auto|].
+    right. exists u, bm, a, b. destruct (Nat.eq_dec u (nthr s)) as [->|Hn]; [|rewrite (T u Hn); exact Hin].
+    destruct (P (nthr s) (le_n _)) as [E _]. rewrite E in Hin. destruct Hin.
+  - intros u j. destruct (Nat.eq_dec u (nthr s)) as [->|Hn]; [rewrite Tn; apply Hf|rewrite (T u Hn); apply (pf s Q u)].
+Qed.
+
+Lemma pq_newpipe : forall s p wi,
+  PqInv s -> pristine s -> pexists (pps s p) = false ->
+  PqInv (set_pipe s p (mkPipe true true false false [] [] wi)).
+Proof.
+  intros s p wi Q P Hex.
+  set (s' := set_pipe s p (mkPipe true true false false [] [] wi)).
+  assert (Hp : forall q, q <> p -> pps s' q = pps s q).
+  { intros q Hq. unfold s'. cbn. unfold updZ. destruct (Z.eqb_spec q p); [congruence|reflexivity]. }
+  assert (Ow : forall h, owed s' h <-> owed s h) by (intro h; unfold owed; tauto).
+  assert (Act : forall u, (u < nthr s)%nat -> 0 <= tpipe (thr s u) -> (tcur (thr s u) <> None \/ tscript (thr s u) <> []) ->
+                          tpipe (thr s u) <> p).
+  { intros u Hu H0 Ha E. destruct (pk s Q u Hu H0 Ha) as [X _]. rewrite E in X. congruence. }
+  constructor.
+  - intros u Hu H0 Ha. change (thr s' u) with (thr s u) in *. change (nthr s') with (nthr s) in Hu.
+    pose proof (Act u Hu H0 Ha) as N. unfold pclaim. rewrite (Hp _ N). apply (pk s Q u Hu H0 Ha).
+  - intros u m0 q m. apply (pc s Q u).
+  - intros u bm a b q Hin. change (thr s' u) with (thr s u) in *.
+    destruct (pc2 s Q u bm a b q Hin) as [A [B [C D]]].
+    assert (Hne : tcont (thr s u) <> []) by (intro E; rewrite E in Hin; destruct Hin).
+    assert (N : q <> p) by (rewrite A; apply (Act u (pristine_lt s u P Hne)); [rewrite <- A; exact B|left; exact C]).
+    rewrite (Hp q N). auto.
+  - intros q Hq. destruct (Z.eq_dec q p) as [->|N].
+    + exfalso. apply Hq. unfold s'. cbn. unfold updZ. rewrite Z.eqb_refl. reflexivity.
+    + rewrite (Hp q N) in Hq. rewrite Ow. apply (pq s Q q Hq).
+  - intros u j. apply (pf s Q u).
+Qed.
+
+Ltac pqb st t new :=
+  apply (pq_step st _ t (@nil instr) (@nil instr) new (fun _ => false));
+  [ assumption | eassumption | thr_simpl | reflexivity | thr_simpl | pq_hf | pq_pps | pq_pq | pq_owed | pq_new | pq_nolh
+  | intros; discriminate ].
+
+Lemma begin_cmd_Pq : forall st t c st' ev done,
+  CInv (core st) -> pristine st -> PqInv st -> tcont (thr st t) = [] -> (t < nthr st)%nat ->
+  tcur (thr st t) <> None ->
+  begin_cmd st t c = (st', ev, done) -> PqInv st'.
+Proof.
+  intros st t c st' ev done I P Q Hc Ht Hcur H.
+  assert (Hc0 : tcont (thr st t) = [] ++ []) by exact Hc.
+  assert (Add : forall h st1 wi, wh_add st h = Some (st1, wi) -> PqInv st1 /\ pristine st1 /\ thr st1 = thr st /\ pps st1 = pps st /\ nthr st1 = nthr st).
+  { intros h st1 wi E.
+    destruct (wh_add_core _ _ _ _ E) as [c1 [A [B [C1 [C2 [C3 [C4 [C5 [C6 [C7 C8]]]]]]]]]].
+    destruct (wh_add_ghost _ _ _ _ E) as [G1 G2].
+    split; [|split; [|auto]].
+    - apply (pq_same st); auto.
+      + intro u. rewrite C1. repeat split; reflexivity.
+      + intro h0. unfold owed. rewrite G1, G2. auto.
+    - destruct P as [P0 P]. split; [lia|]. intros u Hu. rewrite C1. apply P. lia. }
+  destruct c; cbn [begin_cmd] in H.
+  - destruct (wreg st w) as [wi|]; [|inversion H; subst; auto].
+    destruct (climb_start st wi (Some (HPlain w))) as [i|] eqn:E; inversion H; subst; clear H; [|auto].
+    apply climb_at_who in E. destruct E as [a [b ->]]. pqb st t [IClimb (KLeaf (wbm wi) a b (Some (HPlain w)))].
+  - destruct (wreg st w) as [wi|] eqn:Ew; [|inversion H; subst; auto].
+    destruct (wbusy st w); inversion H; subst; clear H.
+    + pqb st t [ILock MDL (LPush (wbit wi) (wbm wi) (HPlain w))].
+    + apply (pq_same st); auto; try (intro u; repeat split; reflexivity).
+  - destruct (Waker.creg (chs st c)); inversion H; subst; clear H; [|auto]. pqb st t [ILock (MCh c) (LChSend c m)].
+  - destruct (Waker.creg (chs st c)); inversion H; subst; clear H; [|auto]. pqb st t [ILock (MCh c) (LChClosed c)].
+  - destruct (negb (is_main t) || wused st w || (1000000 <=? w) || (w <? 0)); [inversion H; subst; auto|].
+    destruct (wh_add st (HPlain w)) as [[st1 wi]|] eqn:E; inversion H; subst; clear H; [|auto].
+    destruct (Add _ _ _ E) as [Q1 _]. apply (pq_same st1); auto; try (intro u; repeat split; reflexivity).
+  - destruct (negb (is_main t)); [inversion H; subst; auto|].
+    destruct (fill_loop (Z.to_nat n) st []) as [st1 ev1] eqn:E. inversion H; subst; clear H.
+    destruct (fill_loop_pps _ _ _ _ _ E) as [A B]. destruct (fill_loop_ghost _ _ _ _ _ E) as [G1 G2].
+    apply (pq_same st); auto.
+    + eapply fill_loop_nthr; eauto.
+    + intro u. rewrite B. repeat split; reflexivity.
+    + intro h0. unfold owed. rewrite G1, G2. auto.
+  - destruct (negb (is_main t)); inversion H; subst; clear H; [auto|]. pqb st t [ITopSwap; IRun].
+  - destruct (negb (is_main t)); [inversion H; subst; auto|].
+    destruct (gnotified st); inversion H; subst; clear H; [|auto]. pqb st t [ITopSwap; IRun].
+  - destruct (negb (is_main t)); inversion H; subst; clear H; [auto|].
+    apply pq_spawn; auto; [intro; lia|intros j []].
+  - destruct (negb (is_main t)); inversion H; subst; clear H; [auto|]. pqb st t [IJoin].
+  - destruct (negb (is_main t)); inversion H; subst; clear H; [auto|]. pqb st t [IIdle].
+  - destruct (negb (is_main t) || cexists (chs st c)) eqn:Eg; [inversion H; subst; auto|].
+    destruct (wh_add st (HChan c)) as [[st1 wi]|] eqn:E; inversion H; subst; clear H; [|auto].
+    destruct (Add _ _ _ E) as [Q1 [P1 [T1 _]]].
+    assert (Hc1 : tcont (thr st1 t) = [] ++ []) by (rewrite T1; exact Hc).
+    pqb st1 t [ILock (MCh c) (LChInit c)].
+  - destruct (negb (is_main t) || negb (cguard (chs st c))); inversion H; subst; clear H; [auto|].
+    pqb st t [ILock (MCh c) (LChClose c)].
+  - (* CPNew *)
+    destruct (negb (is_main t) || pexists (pps st p)) eqn:Eg; [inversion H; subst; auto|].
+    apply orb_false_iff in Eg. destruct Eg as [_ Eex].
+    destruct (wh_add st (HPipe p)) as [[st1 wi]|] eqn:E; inversion H; subst; clear H; [|auto].
+    destruct (Add _ _ _ E) as [Q1 [P1 [T1 [Pp1 N1]]]].
+    assert (Q2 : PqInv (set_pipe st1 p (mkPipe true true false false [] [] wi))) by (apply pq_newpipe; auto; rewrite Pp1; exact Eex).
+    apply pq_spawn; [exact Q2|exact P1| |].
+    + intros _. unfold pclaim. cbn. unfold updZ. rewrite Z.eqb_refl. cbn. auto.
+    + intros j [<-|[]]. exact Logic.I.
+  - destruct (negb (is_main t) || negb (phandle (pps st p))); inversion H; subst; clear H; [auto|]. pqb st t [ILock (MPq p) (LPqSend p m)].
+  - destruct (negb (is_main t) || negb (phandle (pps st p))); inversion H; subst; clear H; [auto|]. pqb st t [ILock (MPq p) (LPqCancelSet p)].
+  - destruct (tpipe (th st t) <? 0); inversion H; subst; clear H; [auto|]. pqb st t [ILock (MPq (tpipe (th st t))) (LPqRecv (tpipe (th st t)))].
+  - (* CLSend *)
+    destruct (Z.ltb_spec (tpipe (th st t)) 0); inversion H; subst; clear H; [auto|].
+    apply (pq_step st _ t (@nil instr) (@nil instr) [ILock (MPq (tpipe (th st t))) (LPqLSend (tpipe (th st t)) m)] (fun _ => false));
+      [ assumption | eassumption | thr_simpl | reflexivity | thr_simpl | pq_hf | pq_pps | pq_pq | pq_owed | | pq_nolh
+      | intros; discriminate ].
+    intros j [<-|[]]. cbn. unfold th in *. auto.
+  - destruct (tpipe (th st t) <? 0); inversion H; subst; clear H; [auto|]. pqb st t [ILock (MPq (tpipe (th st t))) (LPqCancelGet (tpipe (th st t)))].
+  - (* CPanic *)
+    destruct (tpipe (th st t) <? 0); inversion H; subst; clear H; [auto|].
+    match goal with |- PqInv ?S' => set (st' := S') end.
+    apply (pq_idle st st' t [] Q Hc); try reflexivity.
+    + unfold st'. thr_simpl.
+    + unfold st'. thr_simpl.
+    + unfold st'. thr_simpl.
+    + intros _ H0 _. unfold st'. cbn -[Nat.eqb]. unfold updN, th. rewrite Nat.eqb_refl. cbn.
+      apply (pk st Q t Ht H0). left. exact Hcur.
+    + intros j [].
+    + intros j. unfold st'. cbn -[Nat.eqb]. unfold updN, th. rewrite Nat.eqb_refl. cbn.
+      intros [<-|Hj]; [exact Logic.I|apply (pf st Q t j Hj)].
+Qed.
+
+Lemma nrel_in : forall k k1, nrel k k1 -> forall j, In j k1 -> In j k \/ norm_new j.
+Proof.
+  induction 1 as [k|i r new k1 Hm Hn Hr IH]; intros j Hj; [left; exact Hj|].
+  destruct (IH j Hj) as [X|X]; [|right; exact X]. apply in_app_or in X. destruct X as [X|X]; [right; auto|left; right; exact X].
+Qed.
+
+Lemma norm_new_freshP : forall j, norm_new j -> forall s u, freshP s u j.
+Proof.
+  intros j [[h [d Hj]]|[[l ->]|[l ->]]] s u; try exact Logic.I.
+  destruct h; cbn in Hj; destruct Hj as [<-|[]]; exact Logic.I.
+Qed.
+
+Lemma pq_replace : forall st st' t k1,
+  PqInv st -> tcont (thr st' t) = k1 -> nthr st' = nthr st ->
+  (forall u, u <> t -> thr st' u = thr st u) ->
+  tfinal (thr st' t) = tfinal (thr st t) -> tcur (thr st' t) = tcur (thr st t) ->
+  tscript (thr st' t) = tscript (thr st t) -> tpipe (thr st' t) = tpipe (thr st t) ->
+  pps st' = pps st -> gnew st' = gnew st -> gcol st' = gcol st ->
+  nrel (tcont (thr st t)) k1 -> PqInv st'.
+Proof.
+  intros st st' t k1 Q Hc' Hn Ho F1 F2 F3 F4 Hp Hgn Hgc N.
+  assert (Ow : forall h, owed st' h <-> owed st h) by (intro h; unfold owed; rewrite Hgn, Hgc; tauto).
+  constructor.
+  - intros u. destruct (Nat.eq_dec u t) as [->|Hu].
+    + rewrite Hn, F1, F2, F3, F4. unfold pclaim. rewrite Hp. apply (pk st Q t).
+    + rewrite Hn, (Ho u Hu). unfold pclaim. rewrite Hp. apply (pk st Q u).
+  - intros u m0 p m Hin. destruct (Nat.eq_dec u t) as [->|Hu].
+    + rewrite F2, F4. rewrite Hc' in Hin. destruct (nrel_in _ _ N _ Hin) as [X|X]; [apply (pc st Q t m0 p m X)|].
+      exact (norm_new_freshP _ X st t).
+    + rewrite (Ho u Hu) in *. apply (pc st Q u m0 p m Hin).
+  - intros u bm a b p Hin. rewrite Hp. destruct (Nat.eq_dec u t) as [->|Hu].
+    + rewrite F2, F4. rewrite Hc' in Hin. destruct (nrel_in _ _ N _ Hin) as [X|X]; [apply (pc2 st Q t bm a b p X)|].
+      exact (norm_new_freshP _ X st t).
+    + rewrite (Ho u Hu) in *. apply (pc2 st Q u bm a b p Hin).
+  - intros p. rewrite Hp, Ow. intro Hq. destruct (pq st Q p Hq) as [O|[u [bm [a [b Hin]]]]]; [left; auto|].
+    right. exists u, bm, a, b. destruct (Nat.eq_dec u t) as [->|Hu]; [|rewrite (Ho u Hu); exact Hin].
+    rewrite Hc'. apply (nrel_keep _ _ N); auto.
+  - intros u j. destruct (Nat.eq_dec u t) as [->|Hu]; [rewrite F1|rewrite (Ho u Hu)]; apply (pf st Q).
+Qed.
+
+Lemma nrel_nil : forall k1, nrel [] k1 -> k1 = [].
+Proof. intros k1 H. inversion H; subst. reflexivity. Qed.
+
+Lemma settle_Pq : forall st t ev done st' ev',
+  PqInv st -> (done <> None -> tcont (thr st t) = []) -> settle st t ev done = (st', ev') -> PqInv st'.
+Proof.
+  intros st t ev done st' ev' Q Hd H. unfold settle in H.
+  destruct (norm (2 * (cont_size (tcont (th st t)) + length (tacc (th st t))) + 2) (sl st) (tacc (th st t)) (tcont (th st t)) ev)
+    as [[[s1 acc1] k1] ev1] eqn:En.
+  cbn zeta in H.
+  pose proof (norm_nrel _ _ _ _ _ _ _ _ _ En) as N.
+  set (st1 := set_sl (upd_th st t (set_tacc (set_tcont (th st t) k1) acc1)) s1) in *.
+  assert (Q1 : PqInv st1).
+  { apply (pq_replace st st1 t k1 Q); try reflexivity; try exact N; unfold st1; thr_simpl. }
+  assert (T1 : tcont (thr st1 t) = k1) by (unfold st1; thr_simpl).
+  assert (Hd1 : done <> None -> k1 = []).
+  { intro D. unfold th in N. rewrite (Hd D) in N. apply nrel_nil. exact N. }
+  clearbody st1.
+  match type of H with (let '(st2, ev2) := ?E in _) = _ => destruct E as [st2 ev2] eqn:E2 end.
+  assert (Done : forall s, (forall u, u <> t -> thr s u = thr st1 u) -> nthr s = nthr st1 -> pps s = pps st1 ->
+                           gnew s = gnew st1 -> gcol s = gcol st1 ->
+                           thr s t = set_tcur (thr st1 t) None -> k1 = [] -> PqInv s).
+  { intros s A B C D E F G. rewrite G in T1.
+    apply (pq_idle st1 s t [] Q1 T1); auto.
+    - rewrite F. cbn. exact T1.
+    - rewrite F. reflexivity.
+    - rewrite F. cbn. intros Ht H0 [X|X]; [congruence|]. apply (pk st1 Q1 t Ht H0). right. exact X.
+    - intros j [].
+    - rewrite F. cbn. apply (pf st1 Q1 t). }
+  assert (Q2 : PqInv st2).
+  { destruct done as [v|].
+    - inversion E2; subst. apply Done; try reflexivity; [thr_simpl|cbn; unfold updN, th; rewrite Nat.eqb_refl; reflexivity|apply Hd1; discriminate].
+    - destruct k1.
+      + destruct (tcur (th st1 t)) as [c|]; inversion E2; subst; [|exact Q1].
+        apply Done; try reflexivity; destruct c; try reflexivity; try thr_simpl; cbn; unfold updN, th; rewrite Nat.eqb_refl; reflexivity.
+      + inversion E2; subst. exact Q1. }
+  destruct (tcont (th st2 t)) eqn:Ec; [|inversion H; subst; exact Q2].
+  destruct (tscript (th st2 t)) eqn:Es; [|inversion H; subst; exact Q2].
+  destruct (tcur (th st2 t)) eqn:Eu; [inversion H; subst; exact Q2|].
+  destruct (tfinal (th st2 t)) eqn:Ef; inversion H; subst; [exact Q2|].
+  unfold th in *.
+  apply (pq_idle st2 _ t (i :: l) Q2 Ec); try reflexivity.
+  - thr_simpl.
+  - thr_simpl.
+  - thr_simpl.
+  - cbn -[Nat.eqb]. unfold updN, th. rewrite Nat.eqb_refl. cbn. rewrite Eu, Es. intros _ _ [X|X]; congruence.
+  - intros j Hj. rewrite <- Ef in Hj. apply (pf st2 Q2 t) in Hj. destruct j; cbn in Hj; try contradiction.
+    destruct a; cbn in Hj; try contradiction; exact Logic.I.
+  - cbn -[Nat.eqb]. unfold updN, th. rewrite Nat.eqb_refl. cbn. intros j [].
+Qed.
+
+Lemma begin_cmd_done : forall st t c st' ev v,
+  (t < nthr st)%nat -> begin_cmd st t c = (st', ev, Some v) -> tcont (thr st' t) = tcont (thr st t).
+Proof.
+  intros st t c st' ev v Ht H.
+  assert (Sp : forall s1 p f, thr s1 = thr st -> nthr s1 = nthr st -> tcont (thr (spawn_thread s1 t p f) t) = tcont (thr st t)).
+  { intros s1 p f E1 E2. cbn. unfold updN, th. destruct (Nat.eqb_spec t (nthr s1)); [lia|]. rewrite E1. reflexivity. }
+  destruct c; cbn [begin_cmd] in H; destr_all H; inversion H; subst; clear H; try reflexivity;
+    repeat match goal with
+           | E : wh_add _ _ = Some _ |- _ => destruct (wh_add_core _ _ _ _ E) as [? [? [? [C1 [C2 _]]]]]; clear E
+           | E : fill_loop _ _ _ = _ |- _ => destruct (fill_loop_pps _ _ _ _ _ E) as [_ C1]; clear E
+           end;
+    try (cbn; rewrite C1; reflexivity); try (apply Sp; auto; fail); try thr_simpl.
+Qed.
+
+Theorem wstep_Pq : forall st t st' ev,
+  MInv st -> WInv st -> SlInv st -> ChInv st -> PqInv st -> wstep st t = (st', ev) -> PqInv st'.
+Proof.
+  intros st t st' ev [I [P Wf]] W S C Q H. unfold wstep in H.
+  destruct (enabled st t) eqn:En; cbn [negb] in H; [|inversion H; subst; exact Q].
+  assert (Ht : (t < nthr st)%nat).
+  { unfold enabled in En. apply andb_true_iff in En. destruct En as [En _]. apply Nat.ltb_lt in En. exact En. }
+  assert (It : CInv (core (tick st t))) by (eapply CInv_ceq; [|exact I]; unfold tick; same_core).
+  assert (Pt : pristine (tick st t)) by (unfold tick; prist st t).
+  assert (Wwt : WInv (tick st t)) by (unfold tick; ww_refl W).
+  assert (St : SlInv (tick st t)) by (unfold tick; sl_irr st).
+  assert (Ct : ChInv (tick st t)) by (eapply (ch_eq st); [| | | |exact C]; try reflexivity; unfold tick; thr_simpl).
+  assert (Qt : PqInv (tick st t)).
+  { apply (pq_same st); auto; try reflexivity. intro u. unfold tick. repeat split; thr_simpl. }
+  assert (Htt : (t < nthr (tick st t))%nat) by exact Ht.
+  set (s0 := tick st t) in *. clearbody s0. clear En.
+  destruct (tstarted (th s0 t)); cbn [negb] in H.
+  - destruct (tcont (th s0 t)) as [|i r] eqn:Ec.
+    + destruct (tscript (th s0 t)) as [|c0 cs] eqn:Es; [inversion H; subst; exact Q|].
+      match type of H with context [begin_cmd ?S0 t ?cc] =>
+        destruct (begin_cmd S0 t cc) as [[st2 ev0] done] eqn:Eb; set (s1 := S0) in * end.
+      assert (I1 : CInv (core s1)) by (eapply CInv_ceq; [|exact It]; unfold s1; same_core).
+      assert (P1 : pristine s1) by (unfold s1; prist s0 t).
+      assert (Hc1 : tcont (thr s1 t) = []) by (unfold s1; thr_simpl; exact Ec).
+      assert (Ht1 : (t < nthr s1)%nat) by exact Htt.
+      assert (Hcur : tcur (thr s1 t) <> None) by (unfold s1; thr_simpl).
+      assert (Q1 : PqInv s1).
+      { unfold th in Ec, Es. apply (pq_idle s0 s1 t [] Qt Ec); try reflexivity.
+        - exact Hc1.
+        - unfold s1. thr_simpl.
+        - unfold s1. thr_simpl.
+        - unfold s1. cbn -[Nat.eqb]. unfold updN, th. rewrite Nat.eqb_refl. cbn. intros _ H0 _.
+          apply (pk s0 Qt t Htt H0). right. rewrite Es. discriminate.
+        - intros j [].
+        - unfold s1. cbn -[Nat.eqb]. unfold updN, th. rewrite Nat.eqb_refl. cbn. apply (pf s0 Qt t). }
+      eapply settle_Pq; [| |exact H].
+      * exact (begin_cmd_Pq s1 t c0 st2 ev0 done I1 P1 Q1 Hc1 Ht1 Hcur Eb).
+      * intro D. destruct done as [v|]; [|congruence]. rewrite (begin_cmd_done s1 t c0 st2 ev0 v Ht1 Eb). exact Hc1.
+    + destruct (exec_instr s0 t i r) as [st1 ev1] eqn:Ee.
+      eapply settle_Pq; [| |exact H]; [|congruence].
+      exact (exec_instr_Pq s0 t i r st1 ev1 It Wwt Pt St Ct Qt Ec Ee).
+  - eapply settle_Pq; [| |exact H]; [|congruence].
+    apply (pq_same s0); auto; try reflexivity. intro u. repeat split; thr_simpl.
+Qed.
+
+Lemma Pq_init : forall scr, PqInv (winit scr).
+Proof.
+  intro scr. constructor; cbn.
+  - intros t Ht H0. unfold set_tstarted, thread0 in H0. cbn in H0. lia.
+  - intros t m0 p m [].
+  - intros t bm a b p [].
+  - intros p Hq. exfalso. apply Hq. reflexivity.
+  - intros t j [].
+Qed.
+
+Lemma wrun_Pq : forall sched st,
+  MInv st -> WInv st -> SlInv st -> LKInv st -> ChInv st -> PqInv st -> PqInv (fst (wrun st sched)).
+Proof.
+  induction sched as [|t rest IH]; intros st M W S L C Q; cbn [wrun]; auto.
+  destruct (wstep st t) as [st1 ev] eqn:E.
+  specialize (IH st1 (wstep_inv _ _ _ _ M E) (wstep_ww _ _ _ _ M W E) (wstep_Sl _ _ _ _ M S E) (wstep_LK _ _ _ _ M L E)
+                 (wstep_Ch _ _ _ _ M W S L C E) (wstep_Pq _ _ _ _ M W S C Q E)).
+  destruct (wrun st1 rest) as [st2 tr]. exact IH.
+Qed.
+
+Theorem reachable_Pq : forall st, reachable st -> PqInv st.
+Proof.
+  intros st [scr [sched ->]].
+  apply wrun_Pq; [apply MInv_init|apply WInv_init|apply Sl_init| |apply Ch_init|apply Pq_init].
+  exact (reachable_LK (winit scr) (ex_intro _ scr (ex_intro _ [] eq_refl))).
+Qed.
+
+(** A non-empty reply queue always has a wake-up owed to the pipe's handler, or the worker is on its way to the
+    leaf [fetch_or] of the pipe's slot. *)
+Theorem reply_queue_owed : forall st p,
+  reachable st -> precvq (pps st p) <> [] ->
+  owed st (HPipe p) \/ exists t bm a b, In (IClimb (KLeaf bm a b (Some (HPipe p)))) (tcont (thr st t)).
+Proof. intros st p R. apply (pq st (reachable_Pq st R)). Qed.
+
+(** No reply is stranded: in a quiescent state in which no thread has a wake of pipe [p] left to do, every reply
+    pushed with [PipedLink::send] has been taken by the pipe's handler. *)
+Theorem replies_not_stranded : forall st p,
+  reachable st -> quiescent st ->
+  (forall t bm a b, ~ In (IClimb (KLeaf bm a b (Some (HPipe p)))) (tcont (thr st t))) ->
+  precvq (pps st p) = [].
+Proof.
+  intros st p R Qs Hn. destruct (precvq (pps st p)) eqn:E; auto. exfalso.
+  destruct (reply_queue_owed st p R) as [O|[t [bm [a [b Hin]]]]]; [rewrite E; discriminate| |].
+  - exact (not_stranded st R Qs (HPipe p) O).
+  - exact (Hn t bm a b Hin).
+Qed.
+
+(** the wake of a reply is aimed at the pipe's own slot, and that slot still holds the pipe's handler: the worker
+    drops its Waker only in its exit sequence, after its last command *)
+Theorem reply_wake_hits_handler : forall st t bm a b p,
+  reachable st -> In (IClimb (KLeaf bm a b (Some (HPipe p)))) (tcont (thr st t)) ->
+  4096 * bm + 64 * a + b = wbit (pw (pps st p)) /\ slab_get (sl st) (wbit (pw (pps st p))) = Some (HPipe p).
+Proof.
+  intros st t bm a b p R Hin. pose proof (reachable_Pq st R) as Q.
+  destruct (pc2 st Q t bm a b p Hin) as [Ep [H0 [Hcur Hx]]]. split; [exact Hx|].
+  assert (Hne : tcont (thr st t) <> []) by (intro E; rewrite E in Hin; destruct Hin).
+  destruct (reachable_minv st R) as [_ [P _]].
+  exact (proj1 (pipe_slot st t p P (reachable_Sl st R) Q Hne Ep H0 Hcur)).
+Qed.
